@@ -406,7 +406,12 @@ pub fn expand_glob(tokens: &mut types::Tokens) {
                                     // type `ls .*rc` instead of `ls *rc`
                                     continue;
                                 }
-                                result.push(file_path.to_string());
+                                if item.starts_with("./") && !file_path.starts_with("./") {
+                                    // glob drops the leading `./` of the pattern
+                                    result.push(format!("./{}", file_path));
+                                } else {
+                                    result.push(file_path.to_string());
+                                }
                                 is_empty = false;
                             }
                             Err(e) => {
